@@ -142,7 +142,17 @@ pub fn meta_of(pool: &[KeyInfo], m: &SMeta) -> MetadataWrapper {
     match m {
         SMeta::Link(l) => MetadataWrapper::Link(link_of(l)),
         SMeta::Layout(l) => {
-            let mut b = LayoutMetadataBuilder::new().expires(l.expires).readme(l.readme.clone());
+            // the builder is code under test: an expiry it cannot take is recorded (as an oracle failure
+            // of the run) and replaced
+            let e0 = l.expires;
+            let expires = match crate::proto::guarded(move || LayoutMetadataBuilder::new().expires(e0).build().map(|_| ())) {
+                Ok(_) => l.expires,
+                Err(()) => {
+                    crate::proto::generator_panic("building a layout with a representable expiry panicked", format!("LayoutMetadataBuilder::new().expires({:?}).build()", l.expires));
+                    base_now() + Duration::days(30)
+                }
+            };
+            let mut b = LayoutMetadataBuilder::new().expires(expires).readme(l.readme.clone());
             for &k in &l.keys {
                 b = b.add_key(pool[k].public().clone());
             }
@@ -474,9 +484,9 @@ pub fn base_now() -> DateTime<Utc> {
 pub fn script(path: &str, name: &str, exit: i32, action: &str) -> String {
     if exit < 0 {
         // ends by a signal instead of exiting: `-9` = SIGKILL, `-15` = SIGTERM, ... (no exit status exists)
-        return format!("echo '{}|{}' >> run.log; {} echo {} > {}.status; kill -{} $$; sleep 5", path, name, action, exit, name, -exit);
+        return format!("echo '{}|{}' >> run.log; {} echo {} > '{}.status'; kill -{} $$; sleep 5", path, name, action, exit, name, -exit);
     }
-    format!("echo '{}|{}' >> run.log; {} echo {} > {}.status; exit {}", path, name, action, exit, name, exit)
+    format!("echo '{}|{}' >> run.log; {} echo {} > '{}.status'; exit {}", path, name, action, exit, name, exit)
 }
 
 pub struct Gen<'a> {
